@@ -240,7 +240,7 @@ def check_c08(run):
                 run.findings.append(Finding(ob.name, "cxx", f"program shape {shp}, cse={cse}: {p}", {"language": "c++", "inputs": {"shape": list(shp), "seed": run.seed + 31 * t, "cse": cse}, "model_definition": sc.describe()}, True))
     # a plain model whose wrapped quantity Mod(v, 3) is SHARED by two updates: with CSE on it is hoisted into a temporary, which must
     # be printed with the same meaning as everything else (floored modulo; negative operands are sampled)
-    wm = scenarios.Scenario(2, 0, 1, [1], seed=run.seed + 11, wrapped=True)
+    wm = scenarios.Scenario(2, 0, 1, [1], seed=run.seed + 11, wrapped="negative")
     for cse in (True, False):
         probs, h, s = validate_program(run, wm, f"wrapped_model.cse_{'on' if cse else 'off'}", cse=cse, ekf=False, prefix="C08")
         for ob, p in probs[:1]:
